@@ -67,7 +67,10 @@ EXP_LO, EXP_HI = 0.3, 3.0
 LMAX = 4
 
 RULE = ("bases of 1-3 shells, l in 0..4 (every l and both coordinate types occur in every tier; all-Cartesian, "
-        "all-spherical and mixed bases), K 1-3 primitives, M 1-2 segments (generalized), exponents log-uniform "
+        "all-spherical and mixed bases), K 1-3 primitives, M 1-2 segments (generalized; about 60% of the K>=2, M>=2 "
+        "shells - at least two shells per run - carry the zero-padded layout of published general contractions: exact "
+        "zeros in some but not all columns of a primitive's row, every column and every row keeping a non-zero entry; "
+        "evidence counter 'zero-padded generalized shells'), exponents log-uniform "
         "0.3..3 with 8-bit mantissas, centres k/16 with |centre| <= 1, coefficients k/8; moment origin on a centre / "
         "off centre / at the coordinate origin (k/16, norm <= 1), moment orders: all 10 triples of total order <= 2 "
         "plus 3 of the remaining triples with every order <= 2 (thorough: all 27); density matrices P = C C^T "
@@ -180,8 +183,66 @@ def gen_shell16(rng, l, sph, kmax=3, mmax=2, coord=None):
     return XShell(l, coord if coord is not None else gen_centre(rng), exps, coeffs, sph)
 
 
+def zero_pad(rng, sh):
+    """Zero-padded layout of published general contractions (cc-pVXZ, ANO: [[.7, 0], [.4, .3], [0, .9]]): exact zeros
+    in some but not all columns of a row; every column keeps a non-zero entry and no row becomes all zero.  Returns
+    True when at least one row of the shell mixes zero and non-zero entries afterwards."""
+    k, m = len(sh.exps), len(sh.coeffs[0])
+    if k < 2 or m < 2:
+        return False
+    for _ in range(50):
+        keep = [rng.randrange(k) for _ in range(m)]
+        z = [[row != keep[col] and rng.random() < 0.55 for col in range(m)] for row in range(k)]
+        if any(all(r) for r in z) or not any(any(r) and not all(r) for r in z):
+            continue
+        for row in range(k):
+            for col in range(m):
+                if z[row][col]:
+                    sh.coeffs[row][col] = Fraction(0)
+        return True
+    return False
+
+
+def pad_bases(rng, bases):
+    """About 60% of the generalized (K >= 2, M >= 2) shells get the zero-padded layout; every run has at least two such
+    shells: if the bases hold fewer, a primitive is added to shells with M = 2, K = 1 (then, if still short, a second
+    segment to K >= 2 shells of the lowest l) - the number of shells and the grid stay what they were."""
+    padded = 0
+    for shells in bases:
+        for sh in shells:
+            if len(sh.exps) >= 2 and len(sh.coeffs[0]) >= 2 and rng.random() < 0.6:
+                padded += bool(zero_pad(rng, sh))
+    allsh = sorted((sh for shells in bases for sh in shells), key=lambda sh: sh.l)
+    for sh in allsh:
+        if padded >= 2:
+            break
+        if len(sh.coeffs[0]) >= 2 and len(sh.exps) >= 2:
+            if not any(0 in row and any(x != 0 for x in row) for row in sh.coeffs):
+                padded += bool(zero_pad(rng, sh))
+    for sh in allsh:
+        if padded >= 2:
+            break
+        if len(sh.coeffs[0]) >= 2 and len(sh.exps) == 1:
+            while True:
+                e = min(max(short_float(rng, EXP_LO, EXP_HI, 8), Fraction(5, 16)), Fraction(3))
+                if e not in sh.exps:
+                    break
+            sh.exps.append(e)
+            sh.coeffs.append([Fraction(rng.choice([-3, -2, -1, 1, 2, 3]), 4) for _ in sh.coeffs[0]])
+            padded += bool(zero_pad(rng, sh))
+    for sh in allsh:
+        if padded >= 2:
+            break
+        if len(sh.coeffs[0]) == 1 and len(sh.exps) >= 2:
+            for row in sh.coeffs:
+                row.append(Fraction(rng.choice([-3, -2, -1, 1, 2, 3]), 4))
+            padded += bool(zero_pad(rng, sh))
+    return padded
+
+
 def gen_cases(tier, seed):
     rng = random.Random(1000003 * seed + 16)
+    prng = random.Random(1000003 * seed + 1616)       # zero-padding: its own stream, the bases are otherwise unchanged
     n_cases = 11 if tier == "quick" else 100
     cases = []
     for i in range(n_cases):
@@ -216,8 +277,11 @@ def gen_cases(tier, seed):
             orders = list(ALL_ORDERS)
         else:
             orders = list(LOW_ORDERS) + rng.sample(HIGH_ORDERS, 3)
-        cases.append({"kind": "basis", "basis": [s.to_json() for s in shells], "C": [str(c) for c in C],
+        cases.append({"kind": "basis", "basis": shells, "C": [str(c) for c in C],
                       "orders": [list(o) for o in orders], "pseed": rng.randint(1, 10 ** 6)})
+    pad_bases(prng, [c["basis"] for c in cases])
+    for c in cases:
+        c["basis"] = [s.to_json() for s in c["basis"]]
     return cases
 
 
@@ -524,6 +588,10 @@ def run(rep, tier, seed, model, replay):
             for b in _basis(case):
                 key = "shell l=%d %s K=%d M=%d" % (b.l, "sph" if b.sph else "cart", len(b.exps), len(b.coeffs[0]))
                 rep.dist[key] = rep.dist.get(key, 0) + 1
+                if len(b.exps) >= 2 and len(b.coeffs[0]) >= 2:
+                    zp = any(0 in row and any(x != 0 for x in row) for row in b.coeffs)
+                    key = "stat:%s generalized shells (K>=2, M>=2)" % ("zero-padded" if zp else "dense")
+                    rep.dist[key] = rep.dist.get(key, 0) + 1
             for k, v in out["errs"].items():
                 worst[k] = max(worst.get(k, 0.0), v)
             detail = out["detail"]
